@@ -1053,3 +1053,68 @@ pub(crate) fn $name() {
 k_stream_writer_write_validation!(k_stream_writer_zero_channels, 0, 2);
 k_stream_writer_write_validation!(k_stream_writer_nine_channels, 9, 0);
 k_stream_writer_write_validation!(k_stream_writer_stereo_odd, 2, 3);
+
+// ------------------------------------------------------------------ front-end constructors: declared-length validation (C15)
+// contract (Encoder::new replaced by a recorder that reports what it was asked for): for every channel count 0..=255,
+// bits-per-sample 1..=32 and declared total
+//   FlacByteWriter::new:   total bytes must be a non-zero whole number of PCM frames (channels x ceil(bps/8) bytes), else
+//                          SamplesNotDivisibleByChannels / InvalidTotalBytes; the encoder is asked for bytes / (channels x width) PCM frames
+//   FlacSampleWriter::new: total samples must be a non-zero multiple of the channel count, else SamplesNotDivisibleByChannels /
+//                          InvalidTotalSamples; the encoder is asked for samples / channels PCM frames
+//   bits-per-sample 0 or > 32 => InvalidBitsPerSample;   never panics (in particular not for 0 channels)
+static G_N_TOTAL: AtomicI64 = AtomicI64::new(-2);
+static G_N_CALLS: AtomicUsize = AtomicUsize::new(0);
+fn stub_encoder_new<W: std::io::Write + std::io::Seek>(_w: W, _o: Options, _rate: u32, _bps: SignedBitCount<32>, _channels: u8,
+    total: Option<NonZero<u64>>) -> Result<Encoder<W>, Error> {
+    G_N_CALLS.fetch_add(1, Relaxed);
+    G_N_TOTAL.store(total.map_or(-1, |t| t.get() as i64), Relaxed);
+    Err(Error::NoBestLpcOrder) // marker: "validation passed, encoder construction reached"
+}
+
+macro_rules! k_frontend_new_declared_totals {
+    ($name:ident, $byte_writer:expr, $channels:expr, $bps:expr) => {
+#[kani::proof]
+#[kani::unwind(4)]
+#[kani::stub(Encoder::new, stub_encoder_new)]
+pub(crate) fn $name() {
+    // channel count and depth are concrete per instance (a symbolic 64-bit divisor does not finish); the total is symbolic
+    let channels: u8 = $channels;
+    let bps: u32 = $bps;
+    let declared: bool = kani::any();
+    let total: u64 = kani::any();
+    kani::assume(total < (1 << 40));
+    let t = if declared { Some(total) } else { None };
+    let byte_writer: bool = $byte_writer;
+    let width = (bps.div_ceil(8)) as u64;
+    let unit = if byte_writer { channels as u64 * width } else { channels as u64 };
+    let r: Result<(), Error> = if byte_writer {
+        FlacByteWriter::<LogSink, crate::byteorder::LittleEndian>::new(LogSink { written: 0, seeks: 0 }, Options::fast().no_padding().no_seektable(), 44100, bps, channels, t).map(|_| ())
+    } else {
+        FlacSampleWriter::new(LogSink { written: 0, seeks: 0 }, Options::fast().no_padding().no_seektable(), 44100, bps, channels, t).map(|_| ())
+    };
+    let reached = matches!(r, Err(Error::NoBestLpcOrder));
+    let bad_bps = matches!(r, Err(Error::InvalidBitsPerSample));
+    let not_div = matches!(r, Err(Error::SamplesNotDivisibleByChannels));
+    let zero = matches!(r, Err(Error::InvalidTotalBytes)) || matches!(r, Err(Error::InvalidTotalSamples));
+    std::mem::forget(r);
+    if bps == 0 || bps > 32 {
+        vk_assert!(bad_bps, "bits-per-sample outside 1..=32 is InvalidBitsPerSample");
+    } else if !declared {
+        vk_assert!(reached && G_N_TOTAL.load(Relaxed) == -1, "no declared length: the encoder is asked for an open-ended stream");
+    } else if unit == 0 || total % unit != 0 {
+        vk_assert!(not_div, "a declared length that is not a whole number of PCM frames is rejected (also for 0 channels: no division by zero)");
+    } else if total == 0 {
+        vk_assert!(zero, "a declared length of zero is rejected");
+    } else {
+        vk_assert!(reached && G_N_TOTAL.load(Relaxed) == (total / unit) as i64, "the encoder is asked for exactly total / (size of a PCM frame) PCM frames");
+    }
+}
+    };
+}
+k_frontend_new_declared_totals!(k_frontend_new_bytes_2x16, true, 2, 16);
+k_frontend_new_declared_totals!(k_frontend_new_bytes_3x20, true, 3, 20);
+k_frontend_new_declared_totals!(k_frontend_new_bytes_0ch, true, 0, 16);
+k_frontend_new_declared_totals!(k_frontend_new_samples_2ch, false, 2, 24);
+k_frontend_new_declared_totals!(k_frontend_new_samples_0ch, false, 0, 24);
+k_frontend_new_declared_totals!(k_frontend_new_bps33, false, 2, 33);
+k_frontend_new_declared_totals!(k_frontend_new_bps0, true, 2, 0);
